@@ -30,6 +30,7 @@ type PCfg struct {
 	MemQueue    int64  `json:"mem_queue_size"`
 	YieldProb   uint32 `json:"yield_prob"`
 	ShortReads  int    `json:"short_reads"`
+	MaxDeflate  int    `json:"max_deflate_level,omitempty"` // 0 = nsqd's default (6)
 }
 
 type pConn struct {
@@ -90,6 +91,7 @@ func genPCfg(rc *RunCtx) PCfg {
 	c.MemQueue = int64(r.Pick(0, 2, 10000))
 	c.YieldProb = uint32(r.Pick(0, 1024, 4096))
 	c.ShortReads = r.Pick(0, 2, 8)
+	c.MaxDeflate = r.Pick(0, 1, 3, 6, 9)
 	return c
 }
 
@@ -133,6 +135,9 @@ func protoWorld(rc *RunCtx) {
 		o.MsgTimeout = o.MaxMsgTimeout
 	}
 	o.MemQueueSize = c.MemQueue
+	if c.MaxDeflate > 0 {
+		o.MaxDeflateLevel = c.MaxDeflate
+	}
 	o.ClientTimeout = 60 * time.Second
 	o.QueueScanInterval = 100 * time.Millisecond
 	n, err := nsqd.New(o)
@@ -168,6 +173,8 @@ func protoWorld(rc *RunCtx) {
 			w.execCmd(op)
 		case "garbage":
 			w.execGarbage(op)
+		case "negotiate":
+			w.execNegotiate(op)
 		case "http":
 			w.execHTTPReq(op)
 		case "twinpub":
@@ -272,7 +279,7 @@ func genTCPOps(rc *RunCtx, c PCfg) []Op {
 	add := func(o Op) { o.Uid = len(ops); ops = append(ops, o) }
 	for len(ops) < n {
 		conn := int64(r.Intn(3))
-		switch r.Weighted([]int{10, 10, 12, 10, 8, 8, 6, 6, 4, 3, 5, 4, 4, 6, 3}) {
+		switch r.Weighted([]int{10, 10, 12, 10, 8, 8, 6, 6, 4, 3, 5, 4, 4, 6, 3, 3}) {
 		case 0:
 			add(Op{Kind: "cmd", S: "IDENTIFY", A: conn, B: int64(r.Intn(24))})
 		case 1:
@@ -282,9 +289,9 @@ func genTCPOps(rc *RunCtx, c PCfg) []Op {
 		case 3:
 			add(Op{Kind: "cmd", S: "MPUB", A: conn, B: int64(r.Intn(13)), C: int64(r.Intn(12)), D: int64(r.Range(1, 5))})
 		case 4:
-			add(Op{Kind: "cmd", S: "DPUB", A: conn, B: int64(r.Intn(13)), C: int64(r.Intn(9)), D: int64(r.Intn(8))})
+			add(Op{Kind: "cmd", S: "DPUB", A: conn, B: int64(r.Intn(13)), C: int64(r.Intn(9)), D: int64(r.Intn(13))})
 		case 5:
-			add(Op{Kind: "cmd", S: "RDY", A: conn, B: int64(r.Intn(9))})
+			add(Op{Kind: "cmd", S: "RDY", A: conn, B: int64(r.Intn(14))})
 		case 6:
 			add(Op{Kind: "cmd", S: r.PickS("FIN", "REQ", "TOUCH"), A: conn, B: int64(r.Intn(6))})
 		case 7:
@@ -303,6 +310,8 @@ func genTCPOps(rc *RunCtx, c PCfg) []Op {
 			add(Op{Kind: "cmd", S: "TRUNC", A: conn, B: int64(r.Intn(13)), C: int64(r.Intn(4)), D: int64(r.Intn(40))})
 		case 14:
 			add(Op{Kind: "adv", A: int64(r.Pick(10, 500, 2000))})
+		case 15:
+			add(Op{Kind: "negotiate", A: int64(r.Intn(12)), B: int64(r.Intn(3))})
 		}
 	}
 	return ops
@@ -505,7 +514,9 @@ func (w *pWorld) execCmd(op Op) {
 		line := "PUB " + t
 		validDelay := true
 		if op.S == "DPUB" {
-			d := []string{"0", "1", fmt.Sprint(w.cfg.MaxReqMs), fmt.Sprint(w.cfg.MaxReqMs + 1), "-1", "abc", "99999999999999999999999", ""}[op.D%8]
+			// (the spellings around 2^64 wrap to small numbers in a parser that forgets the carry)
+			d := []string{"0", "1", fmt.Sprint(w.cfg.MaxReqMs), fmt.Sprint(w.cfg.MaxReqMs + 1), "-1", "abc", "99999999999999999999999", "",
+				"18446744073709551615", "18446744073709551616", "18446744073709551617", "184467440737095516161", "9223372036854775808"}[op.D%13]
 			line = "DPUB " + t + " " + d
 			v, valid, known := spelledDelay(d, false)
 			validDelay = known && valid && v.Sign() >= 0 && v.Cmp(bigInt(w.cfg.MaxReqMs)) <= 0
@@ -521,7 +532,7 @@ func (w *pWorld) execCmd(op Op) {
 			exp = pExpect{open: true, closes: true}
 		case !validName(t):
 			fatal("E_BAD_TOPIC")
-		case op.S == "DPUB" && op.D%8 == 7:
+		case op.S == "DPUB" && op.D%13 == 7:
 			exp = pExpect{open: true, closes: true} // empty delay parameter: not specified
 		case op.S == "DPUB" && !validDelay:
 			fatal("E_INVALID")
@@ -578,7 +589,8 @@ func (w *pWorld) execCmd(op Op) {
 			pubTopic, pubCount = t, int64(nmsg)
 		}
 	case "RDY":
-		v := []string{"0", "1", fmt.Sprint(w.cfg.MaxRdy), fmt.Sprint(w.cfg.MaxRdy + 1), "-1", "x", "99999999999999999999999", "", "007"}[op.B%9]
+		v := []string{"0", "1", fmt.Sprint(w.cfg.MaxRdy), fmt.Sprint(w.cfg.MaxRdy + 1), "-1", "x", "99999999999999999999999", "", "007",
+			"18446744073709551616", "18446744073709551617", "18446744073709551615", "184467440737095516161", "9223372036854775808"}[op.B%14]
 		line := "RDY " + v
 		if v == "" {
 			line = "RDY"
@@ -1469,3 +1481,65 @@ func (w *pWorld) twinCompare() {
 var _ = binary.BigEndian
 
 func bigInt(v int64) *big.Int { return big.NewInt(v) }
+
+// execNegotiate: a fresh connection negotiates compression with every kind of
+// level (in range, at and beyond the daemon's maximum, nonsensical), and then
+// uses the upgraded connection once. The documented range of deflate_level is
+// 1..max-deflate-level; whatever the client asks for, the level the daemon
+// reports must lie inside it (and equal the request when that was in range),
+// and the upgraded connection must work.
+func (w *pWorld) execNegotiate(op Op) {
+	rc := w.rc
+	max := w.cfg.MaxDeflate
+	if max == 0 {
+		max = 6
+	}
+	levels := []int64{1, int64(max), int64(max) + 1, 9, 10, 11, 100, 0, -1, 1 << 31, int64(max) - 1, 5}
+	lvl := levels[int(uint64(op.A)%uint64(len(levels)))]
+	cl, err := dialV2(rc, "nego", w.tcp, "  V2")
+	if err != nil {
+		w.violate("C09", "refused", "connect: %v", err)
+		return
+	}
+	defer func() { cl.Close(); synctest.Wait() }()
+	opts := map[string]interface{}{"client_id": "nego", "feature_negotiation": true}
+	switch op.B % 3 {
+	case 0, 1:
+		opts["deflate"] = true
+		opts["deflate_level"] = lvl
+	case 2:
+		opts["snappy"] = true
+	}
+	resp, err := cl.Identify(opts, nil)
+	rc.Logf("negotiate %v -> %v err=%v", opts, resp, err)
+	rc.Probe("negotiations")
+	if err != nil {
+		if strings.Contains(err.Error(), "E_BAD_BODY") || strings.Contains(err.Error(), "E_IDENTIFY_FAILED") {
+			return // refusing a nonsensical level is a defined answer too
+		}
+		w.violate("C09", "negotiation-failed", "IDENTIFY %v: %v", opts, err)
+		return
+	}
+	if opts["deflate"] == true {
+		got, _ := resp["deflate_level"].(float64)
+		if d, _ := resp["deflate"].(bool); !d {
+			w.violate("C09", "negotiation-failed", "IDENTIFY %v: deflate not granted: %v", opts, resp)
+			return
+		}
+		if int(got) < 1 || int(got) > max {
+			w.violate("C09", "limit-not-enforced", "IDENTIFY with deflate_level %d: the daemon reports level %v, outside 1..max-deflate-level %d", lvl, got, max)
+			return
+		}
+		if lvl >= 1 && lvl <= int64(max) && int64(got) != lvl {
+			w.violate("C09", "wrong-answer", "IDENTIFY with deflate_level %d (max %d): negotiated %v", lvl, max, got)
+			return
+		}
+	}
+	// one exchange over the upgraded connection: TOUCH is not allowed before SUB -> fatal E_INVALID
+	cl.Start()
+	cl.Cmd("TOUCH 0123456789abcdef", nil)
+	f, ok := cl.WaitFrame(10*time.Second, isNonMsg)
+	if !ok || f.Type != frameError || errCode(f.Data) != "E_INVALID" {
+		w.violate("C09", "wrong-answer", "after negotiating %v: TOUCH before SUB answered %q ok=%v (expected fatal E_INVALID over the upgraded connection)", opts, trunc(f.Data, 60), ok)
+	}
+}
